@@ -2,6 +2,9 @@
 """Regenerates MANIFEST.json from the table below (kept in one place so it stays valid)."""
 import json, subprocess
 CHECKS = {
+ "C06": dict(level="exploration", tech="reference-model oracle (admissible-set model written from the statement) over random operation pools, delivery orders, duplications, partitions and merges on real SignedRegister / RegisterCrdt replicas; closure check by re-decoding and verify()",
+             text="Pools of authorised / unauthorised / forged / oversized / foreign-address / causally chained operations are delivered to 2-5 real replicas in random orders and healed by random merges; every add_op result, every replica's op set, convergence of op sets and of CRDT reads, merge algebra and closure (incl. at and across the 1024-entry limit) are judged.",
+             note="Open registers take any operation; forgeries are bit-level (no hash-collision attacks on the 64-bit signed digest).", ref="DESIGN.md §4 C06"),
  "C17": dict(level="exploration", tech="no-panic / round-trip monitor: 14 parser targets run under catch_unwind in sharded processes built with overflow-checks + debug-assertions (the arithmetic sanitizer); shard-crash journal turns aborts into violations",
              text="Generated hostile inputs (empty, boundary lengths around every fixed offset, boundary numerics, non-ASCII, very long, mutated valid encodings, hostile JSON leaves, authentic ciphertexts of hostile plaintexts) are fed to the real parsers; any panic/overflow/abort is a violation, and parse(format(x)) == x is checked where a formatter exists.",
              note="Overflow is observed because the harness compiles /repo crates with overflow-checks; ant-cli's binary-only wallet module is compiled in via #[path] from the working tree.", ref="DESIGN.md §4 C17"),
